@@ -13,12 +13,12 @@ PROP = "C05"
 INV = ("Aligned", "NoDupAtoms", "BondsInside")
 PROPS = ("KeepsGiven", "MovesExactlySelected", "DeleteRemovesExactlyIncident", "FailedIsNoOp")
 ACTIONS = ("AddAtom", "AppendAtom", "Connect", "AppendBond", "DelBond", "DelAtomObj", "DelAtomIdx", "DelAtomLabel",
-           "DelAtomElem", "RemoveSubstituent", "AddH", "SubTranslate", "Clone")
+           "DelAtomElem", "RemoveSubstituent", "AddH", "SubTranslate", "Clone", "MakeView", "ViewTranslate")
 
 
 def cfg(ids, fresh, maxlive, charges, dev="DevNone"):
     return dict(spec="Spec", constants={"AtomId": f"<- {ids}", "Fresh": f"<- {fresh}", "FreshAP": "<- AP1", "ElemOf": "<- ElemM", "LabelOf": "<- LabelM",
-                                        "Valence": "<- ValM", "QGiven": "<- QG", "MaxLive": maxlive,
+                                        "Valence": "<- ValM", "QGiven": "<- QG", "MaxLive": maxlive, "MaxView": 1,
                                         "HasCharges": "TRUE" if charges else "FALSE", "Deviations": f"<- {dev}"},
                 invariants=INV, properties=PROPS, view="View")
 
@@ -68,7 +68,7 @@ def one(tier, seed, ev, rep, kind, ids, fresh, maxlive, budget):
 def trace_cfg(kind):
     return dict(spec="TraceSpec", constants={
         "AtomId": "<- TraceIds", "Fresh": "<- TraceFresh", "FreshAP": "<- TraceFreshAP", "ElemOf": "<- TraceElem",
-        "LabelOf": "<- TraceLabel", "Valence": "<- TraceVal", "QGiven": "<- TraceQ", "MaxLive": 100000,
+        "LabelOf": "<- TraceLabel", "Valence": "<- TraceVal", "QGiven": "<- TraceQ", "MaxLive": 100000, "MaxView": 100000,
         "HasCharges": "TRUE" if kind == "Molecule" else "FALSE", "Deviations": "<- DevNone"},
         invariants=("NoDupAtoms", "BondsInside"))
 
